@@ -4,7 +4,7 @@
 set -u
 export GOFLAGS=-mod=mod GOPROXY=off GOSUMDB=off GOTOOLCHAIN=local CGO_ENABLED=0
 V=/verif
-OUT=$1; shift
+OUT=$(realpath -m "$1"); shift
 REPO=${VERIF_REPO:-/repo}
 if [ ! -x $V/bin/instrument ]; then
   (cd $V/tools/instrument && go build -o $V/bin/instrument .) || { echo "build: cannot build instrumenter" >&2; exit 2; }
@@ -15,7 +15,7 @@ $V/bin/instrument -repo $REPO -out $SCR -overlaysrc $V/overlay "$@" || { echo "b
 cp $REPO/go.mod $SCR/go.mod && cp $REPO/go.sum $SCR/go.sum || exit 2
 mkdir -p $(dirname $OUT) $V/evidence
 cp $SCR/instrument_stats.json $OUT.stats.json
-if ! go build -C $REPO -modfile=$SCR/go.mod -overlay=$SCR/overlay.json -trimpath -o $OUT ./zzverif/cmd/verifsim 2>$SCR/build.log; then
+if ! go build -C $REPO -modfile=$SCR/go.mod -overlay=$SCR/overlay.json -trimpath -o $OUT ${VERIF_MAIN:-./zzverif/cmd/verifsim} 2>$SCR/build.log; then
   echo "build: go build failed:" >&2; head -50 $SCR/build.log >&2; exit 2
 fi
 exit 0
